@@ -12,6 +12,9 @@ pub enum DocSpec {
     Sub { of: usize, idx: usize },
     /// the (successful) result of an earlier search, handed back as input
     ResultOf(u64),
+    /// built directly (no JSON parser, whose depth limit is 128): `depth` nested
+    /// arrays, with an object wrapper {"a": ..} every `obj_every` levels (0: never)
+    Deep { depth: usize, obj_every: usize },
 }
 
 #[derive(Clone, Copy, Debug, PartialEq, Eq)]
@@ -227,6 +230,7 @@ pub fn op_to_json(op: &Op) -> Value {
                 DocSpec::Compose { obj, parts } => json!({"compose": parts, "obj": obj}),
                 DocSpec::Sub { of, idx } => json!({"sub_of": of, "idx": idx}),
                 DocSpec::ResultOf(id) => json!({"result_of": id}),
+                DocSpec::Deep { depth, obj_every } => json!({"deep": depth, "obj_every": obj_every}),
             };
             json!({"op":"newdoc","d":d,"spec":s})
         }
@@ -314,6 +318,11 @@ pub fn op_from_json(v: &Value) -> Result<Op, String> {
                 }
             } else if let Some(id) = s.get("result_of").and_then(|x| x.as_u64()) {
                 DocSpec::ResultOf(id)
+            } else if let Some(depth) = s.get("deep").and_then(|x| x.as_u64()) {
+                DocSpec::Deep {
+                    depth: depth as usize,
+                    obj_every: s.get("obj_every").and_then(|x| x.as_u64()).unwrap_or(0) as usize,
+                }
             } else {
                 return Err(format!("bad doc spec {}", s));
             };
